@@ -303,6 +303,8 @@ def run(ck):
               "_start_timer is not called with the current event's duration and the entered "
               "state's timed event", ctx, s.ast)
 
+    _derived_blocks(ck, prog)
+
     # ------------------------------------------------------------------ R04.9
     from sa.tables import fold as _fold
     for q in ('blocklib.fsms:Timer', 'blocklib.sblocks2:InputExp'):
@@ -326,6 +328,82 @@ def run(ck):
                 problems.append(f"timed event {ev!r} keeps the FSM in {state!r}")
         ck.ob(R9, q, not problems, f"timers {timers} agree with the transitions" if not problems
               else '; '.join(problems), None, f"{mod.path}:{ci.node.lineno}")
+
+
+def _derived_blocks(ck, prog):
+    """R04.10: Timer and InputExp as documented, on finite domains."""
+    from sa.absval import Interp
+    from sa.tables import fold
+    R = ck.rule('R04.10', "derived blocks: Timer's start/stop conditions, output and t_period split; "
+                "InputExp's tables, duration mapping and initial state", 'truthiness domain', 8)
+    tm = prog.cls('blocklib.fsms:Timer')
+    for cond, blocked_state in (('cond_start', 'on'), ('cond_stop', 'off')):
+        fi = tm.methods.get(cond)
+        ck.need(R, fi is not None, f"Timer.{cond} not found")
+        for restartable in (False, True):
+            for in_state in (False, True):
+                env = {'self._restartable': restartable,
+                       f"self._state != '{blocked_state}'": not in_state,
+                       f"self._state == '{blocked_state}'": in_state}
+                got = Interp(R, env, 'truthiness').run(fi.node.body)
+                ck.abstract_cases += 1
+                want = restartable or not in_state
+                ck.ob(R, f"{fi.fid} :: restartable={restartable}, already {blocked_state}={in_state}",
+                      bool(got) == want,
+                      f"documented: the event is {'accepted' if want else 'ignored'}; code "
+                      f"{'accepts' if got else 'ignores'}", fi, fi.node)
+    co = tm.methods.get('calc_output')
+    rets = [r for r in own_nodes(co.node) if isinstance(r, ast.Return)]
+    ok = len(rets) == 1 and norm(rets[0].value) in ("self._state == 'on'", "'on' == self._state")
+    ck.ob(R, co.fid, ok, "output is True exactly in state 'on'" if ok else
+          f"Timer output is `{norm(rets[0].value) if rets else None}`", co, co.node)
+    ini = tm.methods.get('__init__')
+    half = [x for x in own_nodes(ini.node) if isinstance(x, ast.Assign) and len(x.targets) == 2 and
+            {norm(t) for t in x.targets} == {"kwargs['t_on']", "kwargs['t_off']"}]
+    ok = len(half) == 1 and norm(half[0].value) in ('period / 2', 'period / 2.0', '0.5 * period', 'period * 0.5')
+    excl = any(isinstance(x, ast.Raise) for x in own_nodes(ini.node))
+    ck.ob(R, f"{ini.fid} :: t_period", ok and excl,
+          "t_period sets t_on = t_off = period / 2 and excludes t_on/t_off" if ok and excl else
+          "t_period is not split into two equal halves (or may be combined with t_on/t_off)",
+          ini, half[0] if half else ini.node)
+    ie = prog.cls('blocklib.sblocks2:InputExp')
+    mod = ie.module
+    try:
+        states = list(fold(prog, mod, prog.class_value(ie, 'STATES')))
+        events = [tuple(e) for e in fold(prog, mod, prog.class_value(ie, 'EVENTS'))]
+        timers = _timers(prog, ie)
+    except Exception as err:
+        ck.need(R, False, f"InputExp tables not foldable: {err}")
+    tv = prog.class_value(ie, 'TIMERS')
+    goto_ok = isinstance(tv, ast.Dict) and any(
+        isinstance(v, (ast.Tuple, ast.List)) and isinstance(v.elts[1], ast.Call) and
+        call_name(v.elts[1]) == 'Goto' and ast.literal_eval(v.elts[1].args[0]) == 'expired' and
+        is_const(v.elts[0], None) for v in tv.values)
+    ok = set(states) == {'expired', 'valid'} and events == [('put', None, 'valid')] and \
+        list(timers) == ['valid'] and goto_ok
+    ck.ob(R, f"{ie.qual} :: tables", ok,
+          "put -> valid from any state; valid is timed (no class default) and expires with "
+          "Goto('expired')" if ok else
+          f"InputExp tables: STATES={states} EVENTS={events} TIMERS={timers}", None,
+          f"{mod.path}:{ie.node.lineno}")
+    ii = ie.methods.get('__init__')
+    sup = [c for c in own_nodes(ii.node) if is_super_call_(c)]
+    ok = len(sup) == 1
+    if ok:
+        kws = {k.arg: norm(k.value) for k in sup[0].keywords if k.arg}
+        ok = kws.get('t_valid') == 'duration' and \
+            kws.get('initdef', '').replace(' ', '') == "'valid'ifhas_init_valueelse'expired'"
+        hv = [x for x in own_nodes(ii.node) if isinstance(x, ast.Assign) and norm(x.targets[0]) == 'has_init_value']
+        ok = ok and len(hv) == 1 and norm(hv[0].value) in ('initdef is not block.UNDEF',)
+    ck.ob(R, f"{ii.fid} :: duration and initial state", ok,
+          "duration becomes t_valid; the FSM starts 'valid' iff an initial value is given" if ok
+          else "InputExp does not map duration to t_valid / does not start in 'valid' exactly when "
+          "an initial value is given", ii, ii.node)
+
+
+def is_super_call_(c):
+    from sa.loader import is_super_call
+    return is_super_call(c, '__init__')
 
 
 def own_nodes_writes(prog, attr):
